@@ -257,6 +257,11 @@ fn halt() -> ! {
 
 /// A scheduling point of the calling (managed) thread.
 fn point(what: &'static str) {
+    // Whatever the scheduler allocates is not a10's.
+    crate::talloc::untracked(|| point_inner(what))
+}
+
+fn point_inner(what: &'static str) {
     let Some(tid) = current() else { return };
     loop {
         let d = {
@@ -497,10 +502,14 @@ pub struct Stats {
 
 /// Preemption-bounded DFS. `run_one(prefix)` runs an execution and returns it;
 /// it is also responsible for judging it. Returns false to stop exploring.
-pub fn explore(bound: u32, shard: (usize, usize), cap_s: u64, run_one: &mut dyn FnMut(&[usize]) -> Exec, stats: &mut Stats) {
+/// `free_bound` (0 = unlimited) bounds the non-default choices taken where the
+/// running thread could not continue (blocked or finished); those are not
+/// preemptions and cost nothing against `bound`.
+pub fn explore(bound: u32, free_bound: u32, shard: (usize, usize), cap_s: u64, run_one: &mut dyn FnMut(&[usize]) -> Exec, stats: &mut Stats) {
     let t0 = std::time::Instant::now();
     let mut item = 0usize;
-    rec(&[], 0, bound, shard, cap_s, t0, run_one, stats, &mut item, true);
+    let fb = if free_bound == 0 { u32::MAX } else { free_bound };
+    rec(&[], (0, 0), (bound, fb), shard, cap_s, t0, run_one, stats, &mut item, true);
     if !stats.capped {
         stats.bound_completed = bound;
     }
@@ -509,8 +518,8 @@ pub fn explore(bound: u32, shard: (usize, usize), cap_s: u64, run_one: &mut dyn 
 #[allow(clippy::too_many_arguments)]
 fn rec(
     prefix: &[usize],
-    used: u32,
-    bound: u32,
+    used: (u32, u32),
+    bound: (u32, u32),
     shard: (usize, usize),
     cap_s: u64,
     t0: std::time::Instant,
@@ -539,8 +548,8 @@ fn rec(
     // switching away from a thread that could continue is a preemption.
     for i in prefix.len()..x.points.len() {
         let p = &x.points[i];
-        let c = used + if p.cur_enabled { 1 } else { 0 };
-        if c > bound {
+        let c = if p.cur_enabled { (used.0 + 1, used.1) } else { (used.0, used.1 + 1) };
+        if c.0 > bound.0 || c.1 > bound.1 {
             continue;
         }
         for alt in 1..p.enabled {
